@@ -35,7 +35,10 @@ ASSUME = ['h5py, pickle, astropy unit tables, numpy trusted',
           'HDF5Opacity.discover() may open every *.h5 of the search path once to read its molecule name (probe) in addition to the load',
           'negative HITRAN entries are noise and read as zero',
           'table values positive, 1e-34 .. 1e-20 m^2 (Exo-Transmit adds 1e-60 m^2 to every entry: below atol)',
-          'outside the (T,P) grid only agreement between containers is demanded']
+          'outside the (T,P) grid only agreement between containers is demanded',
+          'after set_interpolation / set_memory_mode / clear_cache an entry may be served again or reloaded (the model follows the implementation); a path-loaded object that is served must interpolate in the mode configured at that moment; user-registered objects keep their own mode',
+          'k-table interpolation mode is the global xsec_interpolation setting (OpacityCache.set_interpolation), the only documented switch',
+          'wavenumber sub-grid requests are not part of C14 (C13)']
 
 ATOL = 1e-50          # m^2 ; Exo-Transmit reader adds 1e-60 to every entry
 XS_DEFAULT = {'linear': None, 'exp': 'exp'}
